@@ -28,7 +28,7 @@ use crate::memory::{get_optimal_numa_node, numa_alloc_aligned, numa_dealloc};
 use std::sync::{Arc, Mutex};
 // Additional sync primitives (currently unused)
 // use std::sync::RwLock;
-use std::sync::atomic::{AtomicU32, AtomicUsize, Ordering};
+use std::sync::atomic::{AtomicU32, AtomicU64, AtomicUsize, Ordering};
 // Additional utilities (currently unused)
 // use std::collections::HashMap;
 // use std::marker::PhantomData;
@@ -182,17 +182,34 @@ impl Default for FreeListHead {
 #[derive(Debug)]
 #[repr(align(64))]
 struct LockFreeFreeListHead {
-    head: AtomicU32,
+    /// Packed head: upper 32 bits = generation, lower 32 bits = offset of the first free block.
+    ///
+    /// The generation is incremented by every successful compare-exchange.  Without it a
+    /// thread that loaded head A and link B could install B after other threads popped A and
+    /// B and pushed A back (ABA), handing B out twice.
+    head: AtomicU64,
     count: AtomicU32,
-    _padding: [u8; 64 - 8], // Ensure 64-byte alignment
+    _padding: [u8; 64 - 12], // Ensure 64-byte alignment
+}
+
+impl LockFreeFreeListHead {
+    #[inline]
+    fn pack(offset: u32, generation: u32) -> u64 {
+        ((generation as u64) << 32) | (offset as u64)
+    }
+
+    #[inline]
+    fn unpack(packed: u64) -> (u32, u32) {
+        ((packed & 0xFFFF_FFFF) as u32, (packed >> 32) as u32)
+    }
 }
 
 impl Default for LockFreeFreeListHead {
     fn default() -> Self {
         Self {
-            head: AtomicU32::new(u32::MAX),
+            head: AtomicU64::new(Self::pack(u32::MAX, 0)),
             count: AtomicU32::new(0),
-            _padding: [0; 64 - 8],
+            _padding: [0; 64 - 12],
         }
     }
 }
@@ -718,9 +735,10 @@ impl LockFreePool {
             loop {
                 #[cfg(zipora_verif)]
                 crate::memory::verif_sched::point(crate::memory::verif_sched::FL_POP_LOAD);
-                let current_head = head.head.load(Ordering::Acquire);
+                let packed = head.head.load(Ordering::Acquire);
+                let (current_head, generation) = LockFreeFreeListHead::unpack(packed);
                 #[cfg(zipora_verif)]
-                crate::memory::verif_sched::note(crate::memory::verif_sched::FL_POP_LOAD, current_head as u64);
+                crate::memory::verif_sched::note(crate::memory::verif_sched::FL_POP_LOAD, packed);
                 if current_head == u32::MAX {
                     break; // No free blocks
                 }
@@ -741,8 +759,8 @@ impl LockFreePool {
                 #[cfg(zipora_verif)]
                 crate::memory::verif_sched::point(crate::memory::verif_sched::FL_POP_CAS);
                 match head.head.compare_exchange_weak(
-                    current_head,
-                    next_head,
+                    packed,
+                    LockFreeFreeListHead::pack(next_head, generation.wrapping_add(1)),
                     Ordering::Release,
                     Ordering::Relaxed
                 ) {
@@ -792,9 +810,10 @@ impl LockFreePool {
             loop {
                 #[cfg(zipora_verif)]
                 crate::memory::verif_sched::point(crate::memory::verif_sched::FL_PUSH_LOAD);
-                let current_head = head.head.load(Ordering::Acquire);
+                let packed = head.head.load(Ordering::Acquire);
+                let (current_head, generation) = LockFreeFreeListHead::unpack(packed);
                 #[cfg(zipora_verif)]
-                crate::memory::verif_sched::note(crate::memory::verif_sched::FL_PUSH_LOAD, current_head as u64);
+                crate::memory::verif_sched::note(crate::memory::verif_sched::FL_PUSH_LOAD, packed);
 
                 // Write next pointer into freed block
                 #[cfg(zipora_verif)]
@@ -810,8 +829,8 @@ impl LockFreePool {
                 #[cfg(zipora_verif)]
                 crate::memory::verif_sched::point(crate::memory::verif_sched::FL_PUSH_CAS);
                 match head.head.compare_exchange_weak(
-                    current_head,
-                    offset.0,
+                    packed,
+                    LockFreeFreeListHead::pack(offset.0, generation.wrapping_add(1)),
                     Ordering::Release,
                     Ordering::Relaxed
                 ) {
@@ -838,9 +857,9 @@ impl LockFreePool {
         Ok(())
     }
     
-    /// Verification inspector: `(head, count)` of the fast bin serving `size`.
+    /// Verification inspector: `(packed head, count)` of the fast bin serving `size`.
     #[cfg(zipora_verif)]
-    pub fn verif_bin_state(&self, size: usize) -> Option<(u32, u32)> {
+    pub fn verif_bin_state(&self, size: usize) -> Option<(u64, u32)> {
         let aligned = self.align_up(size);
         if aligned == 0 { return None; }
         let idx = (aligned / self.config.alignment) - 1;
